@@ -167,3 +167,59 @@ def encode_stream(chk: Check, rule: str) -> None:
     chk.ob(rule, "Serialization.encode:no-extra-writes", ok, e.loc(),
            "besides the verbatim UnknownData blob, Serialization.encode must not write to the "
            "stream itself (%s)" % [unparse(w) for w in writes], 2)
+
+
+def value_passthrough(chk: Check, rule: str) -> None:
+    """leaf codecs write the value they are given: the value parameter of encode() is never
+    rebound (normalised, clamped, replaced) before it is packed"""
+    repo = chk.repo
+    base = repo.cls("Codec")
+    n = 0
+    for c in repo.classes.values():
+        if c is base or not c.is_subclass_of(base):
+            continue
+        f = c.methods.get("encode")
+        if f is None:
+            continue
+        ps = f.param_names()
+        off = 1 if (f.is_classmethod or (f.self_name and not f.is_staticmethod)) else 0
+        if len(ps) < off + 2:
+            continue
+        val = ps[off + 1]
+        n += 1
+        chk.saw(f)
+        rebinds = [x for x in walk_no_nested(f.node) if isinstance(x, (ast.Assign, ast.AugAssign, ast.AnnAssign))
+                   and any(isinstance(t, ast.Name) and t.id == val
+                           for t in (x.targets if isinstance(x, ast.Assign) else [x.target]))]
+        chk.ob(rule, "%s.encode:value-unmodified" % c.qualname, not rebinds,
+               f.loc(rebinds[0]) if rebinds else f.loc(),
+               "%s.encode rebinds its value argument (%s) before writing it: some values are no "
+               "longer written as themselves (the decoder cannot give them back bit for bit)"
+               % (c.qualname, unparse(rebinds[0])[:60] if rebinds else ""), 1)
+    chk.extra["codec_encoders"] = n
+
+
+def no_result_caches(chk: Check, rule: str, modules: Tuple[str, ...] = ("serialization", "auxdata")) -> None:
+    """no memoising decorator / wrapper (lru_cache, cache, cached_property) on the decode /
+    AuxData path: decoded values are mutable and belong to one table of one IR"""
+    repo = chk.repo
+    for mn in modules:
+        m = repo.module(mn)
+        for x in ast.walk(m.tree):
+            d = None
+            if isinstance(x, ast.FunctionDef):
+                for dec in x.decorator_list:
+                    dd = dotted(dec.func if isinstance(dec, ast.Call) else dec)
+                    if dd and dd[-1] in ("lru_cache", "cache", "cached_property"):
+                        d = (x.name, dd[-1], dec)
+            elif isinstance(x, ast.Call):
+                dd = dotted(x.func)
+                if dd and dd[-1] in ("lru_cache", "cache") and dd[0] in ("functools", "lru_cache", "cache"):
+                    d = ("<call>", dd[-1], x)
+            if d is not None:
+                chk.ob(rule, "%s:%s(%s)" % (mn, d[1], d[0]), False, "%s:%d" % (m.relpath, d[2].lineno),
+                       "%s.py memoises results with %s (%s): decoded AuxData values / looked-up nodes are "
+                       "shared between tables, IRs and load generations, and lookups go stale"
+                       % (mn, d[1], d[0]), 1)
+    chk.ob(rule, "no-memoising-wrappers", True, "python/gtirb/serialization.py:1",
+           "no lru_cache/cache wrappers on the codec path", 1)
